@@ -118,6 +118,7 @@ class EditWorld(object):
         # from 1000 grid points the FFT convolution is used: rounding between two evaluation orders is ~1e-8 relative to the
         # row peak, not ~1e-15 (C02 promises agreement only above ~1e-6 of the peak there)
         self.atol = 1e-8 if self.grid_size[1] < 1000 else 1e-6
+        self.vec_close = (lambda a, b: monitors.close(a, b, atol=self.atol)) if self.grid_size[1] < 1000 else monitors.close_above_floor
         self.tree_dist = TreeJointDistribution(FSCRPDistribution(cfg["alpha"]))
         self.alpha = cfg["alpha"]
         self.tree = Tree(self.grid_size)
@@ -431,12 +432,12 @@ class EditWorld(object):
                     self.problem(dict(key, aspect="arrays"), "%s: clone %r missing" % (what, k))
                     return
                 for j in (0, 1):
-                    if na[k][j] is not None and not monitors.close(na[k][j], nb[k][j]):
+                    if na[k][j] is not None and not self.vec_close(na[k][j], nb[k][j]):
                         self.problem(dict(key, aspect="arrays"), "%s: %s of clone %s differs by %.3g" % (
                             what, ["log_p", "log_r"][j], k if k == "root" else sorted(k), monitors.max_diff(na[k][j], nb[k][j])))
                         return
             da, db = self.densities(a), self.densities(b)
-            if not monitors.close(da, db):
+            if not monitors.close(da, db, atol=self.atol):
                 self.problem(dict(key, aspect="density"), "%s: joint densities differ: %r vs %r" % (what, da, db))
             bad = monitors.wellformed(b)
             if bad:
@@ -595,7 +596,7 @@ class EditWorld(object):
                         continue
                     d = monitors.max_diff(na[k][j], nb[k][j])
                     self.stats["max_rebuild_diff"] = max(self.stats["max_rebuild_diff"], d if d == d else 0.0)
-                    if not monitors.close(na[k][j], nb[k][j], atol=self.atol):
+                    if not self.vec_close(na[k][j], nb[k][j]):
                         self.problem({"sub": "stale", "what": ["log_p", "log_r"][j], "node": "root" if k == "root" else "clone"},
                                      "after op %d %s of %s differs from a fresh rebuild by %.3g (tree %s)" % (
                                          self.opi, ["log_p", "log_r"][j], "virtual root" if k == "root" else "clone %s" % sorted(k), d,
